@@ -220,6 +220,26 @@ func (env *SpecEnv) evalIdent(name string) Val {
 		return env.loadPtr(p)
 	}
 	// hidden loop state: $idx (range-over-slice index), $seen (set of keys already visited by a range-over-map)
+	if name == "$ranged" {
+		// the slice a range-over-slice loop iterates over (evaluated once before the loop)
+		var cands []*Loop
+		if env.lp != nil {
+			cands = append(cands, env.lp)
+		}
+		for i := len(env.st.loops) - 1; i >= 0; i-- {
+			cands = append(cands, env.st.loops[i].L)
+		}
+		for _, l := range cands {
+			if l.RangeIdx != nil && l.RangeLen != nil {
+				if call, ok := l.RangeLen.(*ssa.Call); ok && len(call.Call.Args) == 1 {
+					if v, ok := env.st.regs[call.Call.Args[0]]; ok {
+						return v
+					}
+				}
+			}
+		}
+		specFail("$ranged used outside a range-over-slice loop")
+	}
 	if name == "$idx" || name == "$seen" || name == "$count" {
 		var cands []*Loop
 		if env.lp != nil {
@@ -633,6 +653,14 @@ func (env *SpecEnv) evalCall(x *SExpr) Val {
 		}
 		ne := env.at(env.old)
 		return ne.eval(x.Args[0])
+	case "final":
+		// final(p): the contents of the slice parameter p after an in-place operation (contracts with "inplace p")
+		if len(x.Args) == 1 && x.Args[0].Op == "ident" {
+			if v, ok := env.vars["final:"+x.Args[0].Name]; ok {
+				return v
+			}
+		}
+		specFail("final() needs a parameter declared inplace")
 	case "old_iter":
 		if env.iter == nil {
 			specFail("old_iter() not available here")
